@@ -58,7 +58,27 @@ class Hand(twisted.internet.protocol.Protocol):
     # need to retain state for string representation so
     # pylint: disable=too-many-instance-attributes
     @staticmethod
+    def _is_stale(msg):
+        # work handed out before the last (re)load belongs to a DAG and a
+        # crew that no longer exist; only the job name would match today's
+        built = dawgie.pl.schedule.built
+        scheduled = msg.timing.get('scheduled') if msg.timing else None
+        return (
+            isinstance(built, datetime.datetime)
+            and isinstance(scheduled, datetime.datetime)
+            and scheduled < built
+        )
+
+    @staticmethod
     def _res(msg):
+        if Hand._is_stale(msg):
+            log.warning(
+                'Ignoring result of %s[%s] released before the last (re)load',
+                msg.jobid,
+                msg.incarnation if msg.incarnation else '__all__',
+            )
+            return
+
         done = (
             msg.jobid
             + '['
